@@ -139,7 +139,10 @@ pub fn c17(ctx: &mut Ctx, acc: &mut Acc) -> i32 {
         // byte containers: the length is a count like any other in the format (a JVM array length), so 2^31 bytes and more
         // must be refused — through the size calculator, over zero pages that are never written, this costs nothing
         for n in [1usize << 31, (1usize << 31) + 1, u32::MAX as usize] {
-            let big: Vec<u8> = vec![0u8; n];
+            let Some(big) = sbase::zeroed(n) else {
+                acc.count("skipped_for_lack_of_address_space");
+                continue;
+            };
             let via_size_calculator = |what: &str, f: &dyn Fn(&mut SerializationContext<desert::SizeCalculator>) -> desert::Result<()>| {
                 let (r, _) = monitored(None, || {
                     let mut sc = SerializationContext::new(desert::SizeCalculator::new());
@@ -158,9 +161,12 @@ pub fn c17(ctx: &mut Ctx, acc: &mut Acc) -> i32 {
             }
         }
         if ctx.thorough() {
-            let big: Vec<u8> = vec![0u8; (1usize << 32) + 1]; // untouched zero pages
-            judge(acc, "Vec<u8>_over_4GiB", &ser(&big), Some("LengthTooLarge"), J::obj().with("len", J::u(big.len() as u64)));
-            drop(big);
+            if let Some(big) = sbase::zeroed((1usize << 32) + 1) {
+                // untouched zero pages
+                judge(acc, "Vec<u8>_over_4GiB", &ser(&big), Some("LengthTooLarge"), J::obj().with("len", J::u(big.len() as u64)));
+            } else {
+                acc.count("skipped_for_lack_of_address_space");
+            }
             let s = String::from_utf8(vec![b'a'; (1usize << 31) + 1]).unwrap();
             judge(acc, "String_over_2GiB", &ser(&s), Some("LengthTooLarge"), J::obj().with("len", J::u(s.len() as u64)));
             drop(s);
